@@ -6,12 +6,14 @@ coverage flags.
 -/
 import Driver.Common
 import Driver.C08
+import Driver.FC
 
 open Driver
 
 inductive Eng where
   | none
   | c08 (s : Driver.C08.St)
+  | fc (s : Driver.FC.St)
 
 structure DState where
   eng : Eng := .none
@@ -29,12 +31,14 @@ def fnv (h : UInt64) (s : String) : UInt64 :=
 def newEngine (hdr : Args) : Eng :=
   match hdr.get "engine" with
   | "c08" => .c08 {}
+  | "fc" => .fc {}
   | _ => .none
 
 def stepEng (e : Eng) (l : Line) : Eng × List Msg :=
   match e with
   | .none => (.none, [.corr "no engine"])
   | .c08 s => let (s', m) := Driver.C08.step s l; (.c08 s', m)
+  | .fc s => let (s', m) := Driver.FC.step s l; (.fc s', m)
 
 partial def loop (h : IO.FS.Stream) (out : IO.FS.Stream) (st : DState) : IO Unit := do
   let line ← h.getLine
@@ -55,6 +59,7 @@ partial def loop (h : IO.FS.Stream) (out : IO.FS.Stream) (st : DState) : IO Unit
       if t.startsWith "#stat" then out.putStrLn t
       loop h out st
     | some l =>
+      if l.res = "bad-op" then loop h out st else
       let (e', msgs) := stepEng st.eng l
       let mut st := { st with eng := e', lineNo := st.lineNo + 1, ops := st.ops + 1,
                                hash := fnv st.hash (l.op ++ " " ++ " ".intercalate (l.args.map fun (k, v) => k ++ "=" ++ v)) }
